@@ -644,7 +644,7 @@ def reentrant_case(seed, i, res):
 def part_threads(spec, res):
     """Two or three threads log the same typed message concurrently: every delivered message carries its own thread's serialized values."""
     rng = random.Random("%s:C13:thr:%d" % (spec["seed"], spec["i"]))
-    sched.instrument([_validation, _output])
+    sched.instrument([_validation, _output], post_call=(spec.get("tier") == "thorough"))  # (thorough: switch points also after call instructions inside a line)
     nthreads = rng.choice([2, 2, 3])
     nmsg = rng.choice([1, 2])
     failing = spec["i"] % 3 == 2  # every call's serialization fails: each failure is reported on its own, whoever else is reporting at the time
